@@ -427,7 +427,7 @@ PROPS["C07"] = {
     "level_text": "exploration: each workload under 10..20 thread / schedule configurations, bit-exact differential oracle",
     "level_note": "trusted: hook H4 permutation (add-only), comparison code in c07.rs",
     "technique": "runtime differential monitor across thread-pool sizes, permuted job orders and concurrent callers; bit-exact comparison",
-    "quick": {"cases": 320, "floor": 20, "time_budget": 240},
+    "quick": {"cases": 960, "floor": 20, "time_budget": 240},
     "thorough": {"cases": 20000, "floor": 500, "time_budget": 3000},
 }
 
